@@ -96,7 +96,42 @@ def _diff():
     return build
 
 
+MEDIA_COMPONENTS = {
+    "RTCRtpSender (RTP/RTCP tasks, retransmission history, RTX), VP8/H.264 packetisers": "real",
+    "RTCDtlsTransport (OpenSSL DTLS handshake, libsrtp SRTP/SRTCP), RtpRouter": "real",
+    "RTCRtpReceiver (RTX unwrap, NackGenerator, JitterBuffer, RTCP task)": "real",
+    "codecs (libvpx/x264)": "not run: packet tracks feed the packetiser; the decoder seam records what the decoder would get",
+    "ICE (aioice)": "stub (SimIceConnection on SimNet)",
+    "asyncio loop, clock, RNG, network": "simulated",
+}
+MEDIA_ASSUME = [
+    "DTLS handshake datagrams are delayed but never lost (OpenSSL's retransmission timer reads the real clock)",
+    "the first 6 RTP packets are delivered unfaulted so that SRTP's rollover counter locks on (as it has in any stream that reaches the wrap)",
+    "transport send does not suspend (aioice UDP path)",
+    "sampling, not enumeration: a clean batch is evidence, not proof",
+]
+RULE_MEDIA = ("each evaluation is one simulated session: a packet track of 10-120 frames (1..8 packets, VP8 or H.264, RTX negotiated or "
+              "not, sequence/timestamp origins anywhere incl. just before wraparound) sent by a real RTCRtpSender through real DTLS/SRTP "
+              "over a seeded faulty network to a real RTCRtpReceiver; safety runs fault every class of datagram, liveness runs only "
+              "first transmissions; non-trivial = >=1 frame reached the decoder and >=1 fault fired; distinct = distinct event-log digests")
+
+
+def _media():
+    def build():
+        from ..engines import media_sim
+        return {
+            "fn": media_sim.run, "spec": {}, "level": "exploration", "quick_s": 45, "thorough_s": 600,
+            "rule": RULE_MEDIA, "components": MEDIA_COMPONENTS,
+            "state_measure": "(discards so far, frame partial, retransmissions so far - bucketed) at every frame handed to the decoder",
+            "assumptions": MEDIA_ASSUME,
+            "probes_expected": ["frames_to_decoder", "nacks", "pli", "rtx_packets_sent", "verbatim_retransmissions",
+                                "rtp_sequence_wrap_crossed", "partial_first_frames", "live_all_frames_recovered"],
+        }
+    return build
+
+
 REGISTRY = {
+    "C11": _media(),
     "C17": _diff(),
     "C10": _hist("jb", RULE_JB, "(ring occupancy quartile, frame released, key-frame request, order premise intact) after every add()",
                  probes=["frames_released", "pli", "threw_away_held_packets", "complete_premise_held", "late_100_or_more"]),
